@@ -382,6 +382,20 @@ func c13Oracle(rep *vfReport, r c13Req, o c13Obs, caseOps []string) {
 			fail("result-count", fmt.Sprintf("%d results, want %d (one per non-empty statement up to and including the first failure)", len(o.results), want))
 		}
 	}
+	if r.tx && hasCtl {
+		// outside the property's quantifier, but evaluated all the same: explicit BEGIN / COMMIT /
+		// ROLLBACK inside a Transaction request defeats the wrapper (recorded known finding)
+		rep.Count("oracle:tx-request-with-explicit-transaction-control")
+		anyErr := o.err != nil
+		for _, res := range o.results {
+			if c13IsErr(res) {
+				anyErr = true
+			}
+		}
+		if !(c13Eq(o.after, o.before) || c13Eq(o.after, all)) || (anyErr && !c13Eq(o.after, o.before)) || o.openAfter {
+			rep.Fail("explicit-transaction-control-inside-transaction-request", fmt.Sprintf("a Transaction request holding BEGIN/COMMIT/ROLLBACK statements was not all-or-nothing — request `%s` (after ops %v) observed `%s`", r.opLine(), caseOps, c13Canon(r, o)), replay)
+		}
+	}
 	if !r.tx && !r.rb {
 		rep.Count("oracle:plain-request")
 		if len(o.results) != len(ne) {
@@ -580,6 +594,7 @@ func TestVerifC13(t *testing.T) {
 		// a transaction holding exactly one statement which is not atomic on its own
 		{"reset", "req exec 1 0 p1"}, {"reset", "req request 1 0 p1"}, {"reset", "req exec 1 1 p1", "req request 1 0 p2", "req exec 0 0 p3,w4"},
 		{"reset", "req exec 1 0 w1,p2,w3"}, {"reset", "req request 0 1 b,w1,p2,c"},
+		{"reset", "req exec 1 0 w1,c,w2,xf"}, {"reset", "req request 1 0 w1,c,xf,w2"}, {"reset", "req exec 0 1 w1,p2,w3"},
 	}
 	r := vfNewRng(13)
 	cases := vfScale(350, 30000)
